@@ -546,6 +546,21 @@ def shapes_bounded_instance():
             Kc = min(Kc, D)
             a = rng.normal(size=(Kc, F, D)) + 1j * rng.normal(size=(Kc, F, D))
             r = rng.normal(size=(Kc,))
+            # steering vectors and desired responses of any numeric element type (real-valued room models, integer test patterns,
+            # complex desired responses): the response is an argument of its own, whatever the type of the steering vectors
+            kind = (inp['seed'] // 3) % 4
+            if kind == 1:
+                a = np.ascontiguousarray(a.real)
+            elif kind == 2:
+                a = np.ascontiguousarray(a.real)
+                r = r + 1j * rng.normal(size=(Kc,))
+            elif kind == 3:
+                for _ in range(20):
+                    ai = rng.randint(-4, 5, size=(Kc, F, D))
+                    if all(np.linalg.matrix_rank(ai[:, f].astype(float)) == Kc for f in range(F)):
+                        a = ai
+                        r = rng.uniform(-1, 1, size=(Kc,))
+                        break
             res.update(a=a, r=r, w=bf.get_lcmv_vector(a, r, Pn))
         else:
             a = rng.normal(size=(F, D)) + 1j * rng.normal(size=(F, D))
@@ -618,8 +633,10 @@ def shapes_bounded_instance():
             ok = True
             for f in range(F):
                 for k in range(a.shape[0]):
-                    ok &= bool(abs(np.conj(w[f]) @ a[k, f] - r[k]) < 1e-6 * max(1.0, abs(r[k])))
-            yield 'every-linear-constraint-met', ok
+                    got = np.conj(w[f]) @ a[k, f]
+                    # (for a complex desired response either side of the conjugate is accepted: w^H a_k = r_k or a_k^H w = r_k)
+                    ok &= bool(min(abs(got - r[k]), abs(np.conj(got) - r[k])) < 1e-6 * max(1.0, abs(r[k])))
+            yield 'every-linear-constraint-met[%s steering, %s response]' % (np.asarray(a).dtype, np.asarray(r).dtype), ok
         elif fn.endswith('-auto'):
             Px, mu = out['Px'], out['mu']
             yield 'shape', bool(w.shape == (F, D))
